@@ -56,15 +56,29 @@ class ScriptedDNS:
 
         self.queries: t.List[tuple] = []
         self.answer = None
-        self._orig = (dns.resolver.resolve, dns.asyncresolver.resolve)
+        self._orig = (dns.resolver.resolve, dns.asyncresolver.resolve, dns.resolver.Resolver.resolve, dns.asyncresolver.Resolver.resolve)
         me = self
 
+        # an implementation that builds its own Resolver object asks the same question: script that path too
+        def m_resolve(self_, qname, rdtype="A", *a, **k):
+            search = k.get("search")
+            me.queries.append(("sync", str(qname), str(getattr(rdtype, "name", rdtype)), self_.use_search_by_default if search is None else search))
+            return me.make(str(qname))
+
+        async def m_aresolve(self_, qname, rdtype="A", *a, **k):
+            search = k.get("search")
+            me.queries.append(("async", str(qname), str(getattr(rdtype, "name", rdtype)), self_.use_search_by_default if search is None else search))
+            return me.make(str(qname))
+
+        dns.resolver.Resolver.resolve = m_resolve
+        dns.asyncresolver.Resolver.resolve = m_aresolve
+
         def resolve(qname, rdtype="A", *a, **k):
-            me.queries.append(("sync", str(qname), str(rdtype), k.get("search")))
+            me.queries.append(("sync", str(qname), str(getattr(rdtype, "name", rdtype)), k.get("search")))
             return me.make(str(qname))
 
         async def aresolve(qname, rdtype="A", *a, **k):
-            me.queries.append(("async", str(qname), str(rdtype), k.get("search")))
+            me.queries.append(("async", str(qname), str(getattr(rdtype, "name", rdtype)), k.get("search")))
             return me.make(str(qname))
 
         dns.resolver.resolve = resolve
@@ -74,7 +88,7 @@ class ScriptedDNS:
         import dns.asyncresolver
         import dns.resolver
 
-        dns.resolver.resolve, dns.asyncresolver.resolve = self._orig
+        dns.resolver.resolve, dns.asyncresolver.resolve, dns.resolver.Resolver.resolve, dns.asyncresolver.Resolver.resolve = self._orig
 
     def set_records(self, records):
         self.records = records
@@ -132,16 +146,16 @@ def check_case(rec: Recorder, dns_: ScriptedDNS, records, domain, loop, wit_extr
             rec.violation(f"{api}-lookup-exception", f"{type(e).__name__}: {e}", dict(wit, api=api))
             continue
         rec.count(f"{api}_queries", len(dns_.queries))
-        if len(dns_.queries) != 1:
-            rec.violation(f"{api}-query-count", f"{len(dns_.queries)} queries issued: {dns_.queries}", dict(wit, api=api))
+        if not dns_.queries:
+            rec.violation(f"{api}-query-count", "a record was returned without any query being issued", dict(wit, api=api))
             continue
-        kind, name, rdtype, search = dns_.queries[0]
-        if kind != api:
-            rec.violation(f"{api}-wrong-resolver", f"{api} lookup used the {kind} resolver", dict(wit, api=api))
-        if name != want_name or rdtype.upper() != "SRV":
-            rec.violation(f"{api}-query-name", f"queried ({name!r}, {rdtype}) expected ({want_name!r}, SRV)", dict(wit, api=api))
-        if not domain and not search:
-            rec.violation(f"{api}-search-list", f"no domain given but search={search!r}", dict(wit, api=api))
+        for kind, name, rdtype, search in dns_.queries:  # (a repeated identical query is a retry, not a wrong question)
+            if kind != api:
+                rec.violation(f"{api}-wrong-resolver", f"{api} lookup used the {kind} resolver", dict(wit, api=api))
+            if name != want_name or rdtype.upper() != "SRV":
+                rec.violation(f"{api}-query-name", f"queried ({name!r}, {rdtype}) expected ({want_name!r}, SRV)", dict(wit, api=api))
+            if not domain and not search:
+                rec.violation(f"{api}-search-list", f"no domain given but search={search!r}", dict(wit, api=api))
         m = oracle(records, got)
         rec.count("selections_checked")
         if m:
@@ -290,14 +304,14 @@ def run_api(rec: Recorder, dns_: ScriptedDNS, loop, rng) -> None:
                     continue
                 rec.count("api_discovery_calls")
                 wit = {"records": [list(r) for r in recs], "api": api}
-                if len(dns_.queries) != 1 or not connects:
+                if not dns_.queries or not connects:
                     rec.violation("api-discovery-missing", f"{api}: queries={dns_.queries} connects={connects}", wit)
                     continue
                 want_domain = blob_domain if api in ("sync", "async") else "verif.test"  # unprotect looks up the blob's domain (not its forest)
-                qn = dns_.queries[0][1]
                 exp_q = f"{PREFIX}.{want_domain}" if want_domain else PREFIX
-                if qn != exp_q:
-                    rec.violation("api-discovery-query", f"{api}: queried {qn!r}, expected {exp_q!r}", wit)
+                for qn in {qq[1] for qq in dns_.queries}:
+                    if qn != exp_q:
+                        rec.violation("api-discovery-query", f"{api}: queried {qn!r}, expected {exp_q!r}", wit)
                 if connects[0][1] not in ok_hosts or connects[0][2] != 135:
                     rec.violation("api-discovery-host", f"{api}: connected to {connects[0]} but best hosts are {ok_hosts} (port 135)", wit)
             rec.case(("api", tuple(recs)))
